@@ -244,8 +244,11 @@ func (c *vfC15RCtx) violate(clause, sig, f string, a ...interface{}) {
 	c.viol++
 	d := fmt.Sprintf(f, a...)
 	c.note("VIOLATION %s [%s]: %s", clause, sig, d)
-	doc := map[string]interface{}{"case": c.caseN, "seed": c.env.Seed, "tier": c.env.Tier, "stage": "redis", "signature": sig, "log": c.log}
-	c.replay = vfWriteReplay(c.env, fmt.Sprintf("redis-case%d.json", c.caseN), doc)
+	if k := vfKnownOpen(c.part.known, "C15", sig); k == nil || c.part.KnownSeen[sig] < 2 {
+		// (an open known finding keeps two witnesses, like vfPart.Violate)
+		doc := map[string]interface{}{"case": c.caseN, "seed": c.env.Seed, "tier": c.env.Tier, "stage": "redis", "signature": sig, "log": c.log}
+		c.replay = vfWriteReplay(c.env, fmt.Sprintf("redis-case%d.json", c.caseN), doc)
+	}
 	c.part.Violate(vfViolation{Prop: "C15", Clause: "redis/" + clause, Detail: d, Case: c.caseN, Replay: c.replay, Sig: sig})
 }
 
@@ -260,32 +263,33 @@ func (c *vfC15RCtx) release(k string) {
 	delete(c.tomb, k)
 }
 
-// staleInt: the integer a command on a missing key answers if the server still
-// uses the value the key had when it was released.
-func (c *vfC15RCtx) staleInt(st *vfC15RStep, k string) (int64, bool) {
+// staleInts: the integers a command on a missing key can answer if the server
+// still uses the value the key had when it was released (read as raw bytes, as
+// a counter, or as the decimal number it spells).
+func (c *vfC15RCtx) staleInts(st *vfC15RStep, k string) []int64 {
 	g := c.ghost[k]
 	if g == nil || len(st.args) < 2 {
-		return 0, false
+		return nil
 	}
 	switch st.group {
 	case "APPEND":
-		n := len(g.val)
+		out := []int64{int64(len(g.val) + len(st.args[2]))}
 		if g.num {
-			n = 8
+			out = append(out, int64(8+len(st.args[2])))
 		}
-		return int64(n + len(st.args[2])), true
+		return out
 	case "INCR":
-		base := int64(0)
-		if g.num {
-			base, _ = vfC15RDecimal(g.val)
-		} else {
-			for i := 0; i < 8 && i < len(g.val); i++ {
-				base |= int64(g.val[i]) << (8 * uint(i))
-			}
+		raw := int64(0)
+		for i := 0; i < 8 && i < len(g.val); i++ {
+			raw |= int64(g.val[i]) << (8 * uint(i))
 		}
-		return base + st.delta, true
+		out := []int64{raw + st.delta}
+		if n, ok := vfC15RDecimal(g.val); ok {
+			out = append(out, n+st.delta)
+		}
+		return out
 	}
-	return 0, false
+	return nil
 }
 
 // text sends one command on connection ci and returns the reply.
@@ -627,8 +631,10 @@ func (c *vfC15RCtx) classify(st *vfC15RStep, r *vfRespValue, classBefore string,
 		return "nx-created-key:write-refused"
 	}
 	if !existedBefore {
-		if n, ok := c.staleInt(st, st.keys[0]); ok && r.Kind == ':' && r.Int == n {
-			return "released-key:value-survives"
+		for _, n := range c.staleInts(st, st.keys[0]) {
+			if r.Kind == ':' && r.Int == n && !vfC15RMatch(r, st.exp) {
+				return "released-key:value-survives"
+			}
 		}
 	}
 	switch name {
@@ -1331,6 +1337,13 @@ func vfC15RedisOwnsReplay(env *vfEnv) bool {
 }
 
 func vfC15RedisN(env *vfEnv) int { return env.N(3000, 90000) }
+
+// vfC15RedisExtendSpec adds the stage's rule, floors and assumptions to C15's evidence spec.
+func vfC15RedisExtendSpec(spec *vfSpec) {
+	spec.Rule += " || " + vfC15RedisRule
+	spec.Floors = append(append([]string{}, spec.Floors...), vfC15RedisFloors...)
+	spec.Assumptions = append(append([]string{}, spec.Assumptions...), vfC15RedisAssumptions...)
+}
 
 // vfC15RedisStage runs the Redis-style text command stage and reports into part
 func vfC15RedisStage(env *vfEnv, part *vfPart) {
